@@ -454,7 +454,9 @@ class Ctx:
                           ["FAIL " + f["key"] + ": " + f["what"][:300] for f in self.failures]
         ev = {"property_id": self.pid, "tier": self.tier, "seed": self.seed, "level": self.level,
               "coverage": cov, "assumptions": self.assumptions, "wall_s": round(wall, 1), "violations": viol}
-        with open(os.path.join(VERIF, "evidence", "%s.json" % self.pid), "w") as f:
+        evdir = os.environ.get("VERIF_EVIDENCE_DIR") or os.path.join(VERIF, "evidence")
+        os.makedirs(evdir, exist_ok=True)
+        with open(os.path.join(evdir, "%s.json" % self.pid), "w") as f:
             json.dump(ev, f, indent=1, default=str)
         for l in lines:
             print(l)
